@@ -1089,7 +1089,7 @@ def run(ctx):
     dtypes = ["complex128", "float64", "complex64", "float32"]
 
     # S->C 1: behaviours of the tensor-level algebra model
-    behs = MM.simulated_behaviours(ctx, 50 if quick else 400)
+    behs = MM.simulated_behaviours(ctx, 40 if quick else 400)
     rng = random.Random(900 + seed)
     for k, b in enumerate(behs):
         w = replay_algebra(b, ntr, "complex64" if k % 4 == 3 else "complex128", rng)      # (the model's data is complex)
@@ -1104,7 +1104,7 @@ def run(ctx):
     cases = MM.compress_cases(ctx)
     r2 = random.Random(901 + seed)
     r2.shuffle(cases)
-    ncase = 300 if quick else 2000
+    ncase = 250 if quick else 2000
     # (an uncapped density-matrix sweep of an operator keeps every eigenvector: cost only)
     cases = [c for c in cases if not (c["method"] == "dm" and c["cap"] == 0 and c["kind"] == "mpo" and c["L"] >= 4)]
     for k, c in enumerate(cases[:ncase]):
